@@ -10,7 +10,8 @@ EXTENDS SchemaLib, Containment, Json
 
 CONSTANTS N,          \* number of definitions
           MaxEdges,   \* bound on the number of edges
-          EdgeKinds   \* sequence of edge kinds (the alphabet, ordered)
+          EdgeKinds,  \* sequence of edge kinds (the alphabet, ordered)
+          Prefix      \* TRUE: an unrelated batch of definitions is added to the type space first
 
 Kinds9 == <<"required", "optional", "nullable", "tuple", "array", "vec", "map">>
 Kinds4 == <<"required", "optional", "tuple", "vec">>
@@ -94,5 +95,10 @@ Doc == [defs |-> [d \in { NodeName(n) : n \in 1 .. N } |->
 
 Emit == PrintT(<<"CASE", ToJson([n |-> N, kinds |-> kinds, edges |-> edges,
                                  schema_acyclic |-> SchemaAcyclic(N, edges),
-                                 calls |-> << [call |-> "add_root_schema", doc |-> Doc] >>])>>)
+                                 calls |-> (IF Prefix
+                                            THEN << [call |-> "add_ref_types",
+                                                     defs |-> << <<"Pre", SObj(Props1("z", SInt), {})>>,
+                                                                 <<"Pre2", SObj(Props2("one", SRef("Pre"), "many", SArr(SRef("Pre"))), {"one"})>> >>] >>
+                                            ELSE << >>)
+                                           \o << [call |-> "add_root_schema", doc |-> Doc] >>])>>)
 =============================================================================
